@@ -117,6 +117,15 @@ var opKinds = map[string]opInfo{
 	"poll_approved": {4, true}, // several goroutines poll the SAME approved device code
 	"bad":           {2, true},
 	"authorize_err": {2, true},
+	// requests that end in an error path, judged by the twin run (errops_test.go)
+	"cb_notdone":    {4, true}, // callback before login: error redirect with the request's own state
+	"cb_unknown":    {1, true},
+	"az_err":        {4, true}, // authorize refusals that go to the client's redirect URI
+	"az_noredirect": {1, true},
+	"tok_err":       {3, true},
+	"cred_err":      {2, true},
+	"dead_tok":      {2, true}, // revoked access / refresh tokens
+	"es_err":        {2, true},
 	"code_shared":   {3, false},
 	"refresh_vol":   {2, false},
 	"revoke":        {2, false},
@@ -143,14 +152,15 @@ var opKinds = map[string]opInfo{
 }
 
 // kinds that need nothing prepared: usable in a cold case
-var coldKinds = map[string]bool{"disc": true, "keys": true, "flow": true, "cc": true, "bearer": true, "devflow": true, "bad": true, "authorize_err": true, "profile_token": true}
+var coldKinds = map[string]bool{"disc": true, "keys": true, "flow": true, "cc": true, "bearer": true, "devflow": true, "bad": true, "authorize_err": true, "profile_token": true,
+	"cb_notdone": true, "cb_unknown": true, "az_err": true, "az_noredirect": true, "tok_err": true, "cred_err": true, "es_err": true}
 
 // rapid prefers the low indexes of a SampledFrom list: the kinds that contend for client-side state come first
 var kindOrder = []string{
-	"rp_handler", "rp_handler_err", "rp_flow", "rp_endsession", "rp_revoke", "discover_redir", "rp_verify", "ks_verify", "poll_approved", "flow", "rp_userinfo",
+	"rp_handler", "rp_handler_err", "rp_flow", "rp_endsession", "rp_revoke", "cb_notdone", "az_err", "discover_redir", "rp_verify", "ks_verify", "poll_approved", "flow", "rp_userinfo",
 	"te_exchange", "rs_introspect", "rsjwt_introsp", "profile_token", "rp_device", "rp_cc", "rp_refresh_vol", "rp_authurl",
 	"devflow", "cc", "bearer", "te", "disc", "keys", "userinfo", "introspect", "code_shared", "refresh_vol", "revoke", "endsession",
-	"userinfo_vol", "poll_pending", "poll_denied", "bad", "authorize_err",
+	"userinfo_vol", "poll_pending", "poll_denied", "bad", "authorize_err", "tok_err", "cred_err", "dead_tok", "es_err", "cb_unknown", "az_noredirect",
 }
 
 func weighted(keep func(string) bool) []string {
@@ -198,7 +208,7 @@ func genConc(t *rapid.T) Case {
 			} else {
 				k = rapid.SampledFrom(kindList).Draw(t, "k")
 			}
-			prog = append(prog, Op{K: k, A: rapid.IntRange(0, 3).Draw(t, "a"), B: rapid.IntRange(0, 3).Draw(t, "b")})
+			prog = append(prog, Op{K: k, A: rapid.IntRange(0, 7).Draw(t, "a"), B: rapid.IntRange(0, 3).Draw(t, "b")})
 		}
 		return prog
 	}
@@ -245,6 +255,7 @@ type env struct {
 
 	stable   []tokSet // never revoked; users u1/u2
 	volatile []tokSet // user u3; revoked / refreshed / logged out at will
+	dead     []tokSet // user u3; revoked by setup
 	codes    []string // single-use codes several goroutines compete for
 	devOK    []string // approved device codes
 	devPend  string
@@ -491,6 +502,23 @@ func (d driver) mint(cl *vkit.ClientSpec, user, tag string, refresh bool, hooks 
 }
 
 func pick[T any](s []T, i int) T { return s[((i%len(s))+len(s))%len(s)] }
+
+// doOpObs runs one op; obs is the observation of a twin op (see errops_test.go), "" for the others.
+func (e *env) doOpObs(o Op, tag string, part int, sync func()) (msg, obs string) {
+	if _, twin := twinKinds[o.K]; !twin {
+		return e.doOp(o, tag, part, sync), ""
+	}
+	defer func() {
+		if p := recover(); p != nil {
+			msg = fmt.Sprintf("PANIC %v @%s", p, vkit.FirstLibFrame(string(debug.Stack())))
+		}
+	}()
+	if e.c.Cold && twinNeedsPools(o) {
+		return "", ""
+	}
+	obs, msg = e.errOp(o, tag, part, sync)
+	return msg, obs
+}
 
 // sync is called (at most syncPhases times) just before the op's requests that are worth aligning with the other goroutines.
 // part is the storage partition (and agent) of the caller: 0 for sequential runs, g+1 for goroutine g.
@@ -930,6 +958,21 @@ func (e *env) setup(res *vkit.Result) string {
 			e.volatile = append(e.volatile, ts)
 		}
 	}
+	if n := e.count("dead_tok"); n > 0 {
+		for i := 0; i < min(n, 2); i++ {
+			ts, m := e.drv[0].mint(e.web, "u3", fmt.Sprintf("dead%d", i), true)
+			if m != "" {
+				return "token to be revoked: " + m
+			}
+			if r := e.drv[0].ag.Revoke(ts.RT, "refresh_token", e.webCred()); r.Status != 200 {
+				return "revocation: " + r.Describe()
+			}
+			if r := e.drv[0].ag.UserInfo(ts.AT); r.Success() {
+				return "a revoked access token is still honoured: " + r.Describe()
+			}
+			e.dead = append(e.dead, ts)
+		}
+	}
 	if n := e.count("code_shared"); n > 0 {
 		for i := 0; i < min((n+1)/2, 3); i++ {
 			code, m := e.drv[0].authFlow(e.web, "u3", fmt.Sprintf("code%d", i), "openid", "")
@@ -1041,6 +1084,7 @@ type opResult struct {
 	g, i int
 	op   Op
 	msg  string
+	obs  string
 }
 
 func runConc(c Case) *vkit.Result {
@@ -1110,12 +1154,12 @@ func runConc(c Case) *vkit.Result {
 						}
 					}
 				}
-				msg := e.doOp(o, fmt.Sprintf("g%d-o%d", g, i), g+1, mid)
+				msg, obs := e.doOpObs(o, fmt.Sprintf("g%d-o%d", g, i), g+1, mid)
 				for c.Sync && phase < syncPhases {
 					phase++
 					inside[i][phase-1].skip() // this goroutine will not reach the remaining rendezvous of the round
 				}
-				out = append(out, opResult{g, i, o, msg})
+				out = append(out, opResult{g, i, o, msg, obs})
 			}
 			results[g] = out
 		}(g, prog)
@@ -1150,6 +1194,27 @@ func runConc(c Case) *vkit.Result {
 					}
 					pairs[a+"+"+b] = true
 				}
+			}
+			if n, twin := twinKinds[r.op.K]; twin && !strings.HasPrefix(r.msg, "PANIC") {
+				if c.Cold && twinNeedsPools(r.op) {
+					continue
+				}
+				res.Label(fmt.Sprintf("error-path:%s/%d", r.op.K, ((r.op.A%n)+n)%n))
+				// the same request (same tag, so the same state and markers) alone, now that every goroutine has finished
+				seqMsg, seqObs := e.doOpObs(r.op, fmt.Sprintf("g%d-o%d", r.g, r.i), 0, func() {})
+				switch {
+				case strings.HasPrefix(seqMsg, "PANIC"):
+					res.Fail("C20:panic@"+seqMsg[strings.LastIndex(seqMsg, "@")+1:], "goroutine %d op %d (%+v) run alone: %s", r.g, r.i, r.op, seqMsg)
+				case seqObs != r.obs:
+					res.Fail("C20:concurrent-answer-differs:"+r.op.K, "goroutine %d op %d (%+v) was answered differently under concurrency than the same request run alone afterwards: concurrent: %s // alone: %s", r.g, r.i, r.op, r.obs, seqObs)
+				case r.msg == "":
+					res.Label("answer:as-expected-of-a-run-alone", "twin:same-answer-alone")
+				default:
+					res.Label("answer:fails-alone-too:"+r.op.K, "twin:same-answer-alone")
+					alsoAlone = append(alsoAlone, r.op.K+": "+r.msg)
+					res.Grey = true
+				}
+				continue
 			}
 			if r.msg == "" {
 				if info.det {
@@ -1213,13 +1278,21 @@ func run(c Case) *vkit.Result {
 	return res
 }
 
-const rule = "conc: G in 2..8 goroutines x 2..15 ops (36 kinds: authorize/login/callback/token of every grant, userinfo, introspection, revocation, end-session, device polls " +
-	"of one shared device code, discovery, keys directly on ONE provider (both routers); CodeExchange, Userinfo, RefreshTokens, EndSession, RevokeToken, VerifyTokens, " +
+const rule = "conc: G in 2..8 goroutines x 2..15 ops (44 kinds: authorize/login/callback/token of every grant, userinfo, introspection, revocation, end-session, device polls " +
+	"of one shared device code, discovery, keys directly on ONE provider (both routers); requests that end in each error path (callback before login with the request's own state, " +
+	"unknown callback id, authorize refusals with and without redirect: prompt / scope / response type / id_token_hint / unknown client / unregistered redirect URI, wrong or foreign code, " +
+	"wrong PKCE verifier, wrong redirect_uri, unknown refresh token / device code, missing grant type, malformed basic auth, wrong secrets at token / introspection / revocation / " +
+	"device authorization, forged JWT bearer assertion, garbage subject token, revoked access / refresh tokens, end-session refusals), each compared with the answer the same request " +
+	"gets when run alone afterwards (twin run: status, redirect target, every delivered parameter, body); CodeExchange, Userinfo, RefreshTokens, EndSession, RevokeToken, VerifyTokens, " +
 	"ClientCredentials, device calls, ONE AuthURLHandler and ONE CodeExchangeHandler(UserinfoCallback), rs.Introspect (secret and JWT profile), ExchangeToken, remote key set, JWT-profile token source, " +
 	"Discover through a redirect on ONE RP / RS / exchanger / key set / token source over ONE caller-supplied http.Client, in-process transport) in the -race binary; " +
 	"free or lock-step schedule, warm or cold (nothing touches the provider before the goroutines start), independent or identical programs; " +
-	"order: 2..12 steps of constructing providers (8 endpoint options, bulk option, both routers), RPs (OIDC / OAuth), resource servers, token exchangers with the package default " +
-	"or a shared caller-supplied http.Client, and calls on them, with a deep snapshot and a behaviour re-probe of every instance after every step; " +
+	"order: 2..12 steps of constructing providers (8 endpoint options, bulk option, both routers, issuer strategy StaticIssuer / IssuerFromHost / IssuerFromForwardedOrHost without and with " +
+	"WithIssuerFromCustomHeaders(1..2 names of 6 spellings), wrapper constructors, default / caller-supplied / no CORS options), issuer functions on their own (the same strategies, path, allowInsecure), " +
+	"RPs (OIDC / OAuth), resource servers, token exchangers with the package default or a shared caller-supplied http.Client, and calls on them, with a deep snapshot (package-level defaults, supplied clients, " +
+	"op.Config, cors.Options, header lists) and a behaviour re-probe of every live instance after every step: discovery document, routed paths, issuer for 9 requests carrying Host / Forwarded / " +
+	"X-Forwarded-Host / other headers (two reference issuer functions with default options are built before anything else), CORS answers, key set, answers to fixed bad requests, what RPs / RSs / exchangers " +
+	"tell about themselves, redirect following; an instance built later behaves like the reference with the same options (or as the options are documented); " +
 	"non-trivial: conc = >=2 goroutines and >=4 executed ops, distinct = (router, alg, token type, schedule, cold, G, set of op-kind pairs that ran in different goroutines); " +
 	"order = >=2 instances or >=1 call after a constructor, distinct = step sequence"
 
